@@ -68,7 +68,8 @@ def reconcile_with_views(prop: str, tier: str, root: str, rep: Report, overlay=N
     """Structural rules look for a construct; when one is not found the obligation is re-evaluated on behaviour-preserving views of the same
     program (sa/views.py: private helpers inlined, comprehensions unrolled).  It is refuted only if it is refuted on every view."""
     bad = [o for o in rep.new_refuted()] + [o for o in rep.undecided()]
-    if not bad:
+    floor_errs = [e for e in rep.errors if "hand-confirmed floor" in str(e)]
+    if not bad and not floor_errs:
         return rep
     from sa.views import view_overlays
     keep = anchored_names()
@@ -76,7 +77,7 @@ def reconcile_with_views(prop: str, tier: str, root: str, rep: Report, overlay=N
     sources = {m.relpath: m.source for m in model.modules.values()} if isinstance(model.modules, dict) else {m.relpath: m.source for m in model.modules}
     for name, ov in view_overlays(sources, keep):
         pending = [o for o in rep.obligations if o.status in ("refuted", "undecided") and o in bad]
-        if not pending:
+        if not pending and not floor_errs:
             break
         try:
             vrep = run_property(prop, tier, root, overlay=ov)
@@ -87,11 +88,22 @@ def reconcile_with_views(prop: str, tier: str, root: str, rep: Report, overlay=N
             if o.status == "discharged":
                 good.setdefault((o.rule, o.where, o.desc), o)
         still_bad = {(o.rule, o.where, o.desc) for o in vrep.obligations if o.status != "discharged"}
+        by_site: dict = {}
+        for o in vrep.obligations:
+            by_site.setdefault((o.rule, o.where), []).append(o.status == "discharged")
+        known_descs = {(o.rule, o.where, o.desc) for o in vrep.obligations}
         for o in pending:
             k = (o.rule, o.where, o.desc)
-            if k in good and k not in still_bad:
+            # the view may not even raise the question ("construct not found" has no counterpart when the construct is found): then every
+            # obligation of the same rule at the same site must hold on the view
+            absent_ok = k not in known_descs and by_site.get((o.rule, o.where)) and all(by_site[(o.rule, o.where)])
+            if (k in good and k not in still_bad) or absent_ok:
                 o.status = "discharged"
                 o.detail = f"holds on the equivalent view `{name}` of the program (as written: {o.detail[:160]})"
+        if floor_errs and not any("hand-confirmed floor" in str(e) for e in vrep.errors):
+            # the rule instances are all there once private helpers are inlined: the count on the program as written is not a sign of blindness
+            rep.errors = [e for e in rep.errors if e not in floor_errs]
+            floor_errs = []
         rep.note(f"re-evaluated on the equivalent view `{name}`")
     # errors raised only because of constructs that the views resolved (floors) stay as they are: they were computed on the program as written
     return rep
